@@ -43,6 +43,9 @@ type Geometry struct {
 	// data_integrity_validation_cache option of blocks_on_block_device) between the tracking decorator
 	// and the CAS/AC factory: a repeated read of a validated object is served without checksumming.
 	IntegrityCache bool
+	// ExistenceCache puts an existence_caching decorator (16 entries, one virtual hour) in front of the store,
+	// keyed by the digest key format the real wiring announces for the local backend (real wiring only).
+	ExistenceCache bool
 	DataGates      bool
 	IndexGates     bool
 	DirGates       bool
